@@ -16,28 +16,37 @@ from fractions import Fraction
 from vp.core import Check, Failure, enc, load_corpus
 
 META = dict(
-    level_text="Lean 4 theorems for every history followed by every stream of tag-update messages during an active run "
-               "(out of order, duplicated, unknown tags, any run-id field): PlotLogEntryValue timestamps never decrease and "
+    level_text="Lean 4 theorems (C29_partial and its parts) for every history — reconnects included — followed by every "
+               "stream of tag-update messages during an active run without a reconnect inside the stream (out of order, "
+               "duplicated, unknown tags, any run-id field): PlotLogEntryValue timestamps never decrease and "
                "strictly increase per tag; two rows are in one batch or more than data_log_interval_seconds apart (interval "
                "inf: one batch); a later row of a tag holds a value reported strictly later than the value and the timestamp "
-               "of every earlier row of that tag; every row holds a value that was in a TagsUpdatedMsg (or in the tag map "
-               "before the stream) for that tag with tick_time <= the row's timestamp. Model (tags_info.upsert, "
-               "_persist_tag_values, store_tag_values, run start/stop, UodInfoMsg) tied to the real aggregator by "
-               "differential execution: exhaustive over all streams up to length 3/5 over 6 single-update messages (longer ones sampled), plus "
-               "generated engine-like and malformed streams.",
+               "of every earlier row of that tag; every row belongs to the active run and holds a value that was in a "
+               "TagsUpdatedMsg (or in the tag map before the stream) for that tag with tick_time <= the row's timestamp. "
+               "PARTIAL: the full statement over a whole run is false when the engine's connection is lost and re-established "
+               "inside the run (C29_full, C29_counterexample: rows at 5 then 3, or twice at 5, in one plot log) — recorded as "
+               "known finding. The theorems hold for each variant of two incidental choices (upsert lets an older report "
+               "overwrite / keeps the newer; threshold > / >=); the model (tags_info.upsert, _persist_tag_values, "
+               "store_tag_values, run start/stop, UodInfoMsg, disconnect + re-registration) is tied to the real aggregator by "
+               "differential execution of the rows written per message: exhaustive over all streams up to length 3/5 over 6 "
+               "single-update messages (longer ones sampled), plus generated engine-like and malformed streams.",
     level_note="Trusted: Lean kernel, the harness, SQLite/SQLAlchemy as row lists. The throttling theorem is for a constant "
                "interval during the stream (a UodInfoMsg inside the stream is covered by the correspondence and the oracle, "
                "not by that theorem). Times/intervals are finite floats fed as multiples of 1/8 s (math.inf for the interval "
-               "is modelled). Not part of the property, seen and modelled: the in-memory upsert overwrites a newer value by an "
-               "older report, so a batch can store a value that is not the tag's newest report (it is still newer than "
-               "everything stored before); _persist_tag_values raises ValueError (max of empty list) when the first batch of "
-               "a run is due and no tag value is known at all; rows after an engine reconnect (latest_persisted_tick_time "
-               "is lost) are outside C29's streams.",
-    technique="Lean 4 proof (batch specification of _persist_tag_values + induction over the message stream) + differential "
-              "correspondence",
+               "is modelled; interval >= 0). Known findings (findings.d/C29.json): after a reconnect inside a run "
+               "latest_persisted_tick_time is None again and the new EngineData knows no tag, so the first tag message is "
+               "persisted unconditionally — repeated / decreasing timestamps, a second row within the interval, an older value "
+               "after a newer one (oracle keys ...:after-reconnect); handle_TagsUpdatedMsg raises ValueError (max of an empty "
+               "list) when a batch is due and no tag value is known (first message of a run or after a reconnect with an empty "
+               "tag list or only a Mark reset). Not part of the property, seen and modelled: the in-memory upsert overwrites a "
+               "newer value by an older report, so a batch can store a value that is not the tag's newest report (it is still "
+               "newer than everything stored before). The correspondence compares the rows only; the variant of the two "
+               "incidental choices is recognised by two probes and reported in the evidence (policy_detected).",
+    technique="Lean 4 proof (batch specification of _persist_tag_values + induction over the message stream; counter-example "
+              "for the whole-run statement) + differential correspondence",
 )
 MODULE = "OPM.Properties.C29"
-REQUIRED = ["OPM.C29.stream_rows_ok", "OPM.C29.timestamps_strictly_increasing", "OPM.C29.at_most_once_per_interval",
+REQUIRED = ["OPM.C29.C29_partial", "OPM.C29.C29_counterexample", "OPM.C29.stream_rows_ok", "OPM.C29.timestamps_strictly_increasing", "OPM.C29.at_most_once_per_interval",
             "OPM.C29.never_older", "OPM.C29.faithful", "OPM.C29.after_last_persisted", "OPM.C29.persisted_time_bounds",
             "OPM.C29.whole_run"]
 
@@ -66,8 +75,11 @@ def pyvalue(v):
     return v[1] / 8 if isinstance(v, (list, tuple)) else v
 
 
+POLICY = {"keepNewer": False, "strict": True}      # the variant the implementation was recognised as (detect_policy)
+
+
 def lines_of(case, tags_op: str = "tags") -> list[str]:
-    out = []
+    out = [f"policy\t{int(POLICY['keepNewer'])}\t{int(POLICY['strict'])}"]
     for op in case["ops"]:
         if op[0] == "uod":
             out.append("uod\t" + (";".join(enc(n) for n in op[1]) if op[1] else "-") + "\t" + str(op[2]))
@@ -85,10 +97,12 @@ def _t8(t: float) -> str:
 
 
 def execute(case) -> tuple[list[str], list[dict]]:
+    """run the ops on the real aggregator.  The answer lines (what is compared with the model) are the rows each op
+    wrote — what C29 speaks about; latest_persisted_tick_time and the tag map are kept only for the replay print."""
     from harness.agg_common import AggHarness
     h = AggHarness()
     h.register()
-    out, obs = [], []
+    out, obs = ["ok"], []           # "ok" answers the `policy` line
     k = 0
     last_id = 0
     for op in case["ops"]:
@@ -101,14 +115,18 @@ def execute(case) -> tuple[list[str], list[dict]]:
                 k += 1
             elif op[0] == "stoprun":
                 h.run_stopped(h.current_run_id() or "run-none")
+            elif op[0] == "reconnect":
+                h.disconnect()
+                h.register()
             elif op[0] == "tags":
-                h.tags_updated([(n, pyvalue(v), t / 8) for (n, v, t) in op[2]], None if op[1] is None else f"run-{op[1]}")
+                try:
+                    h.tags_updated([(n, pyvalue(v), t / 8) for (n, v, t) in op[2]], None if op[1] is None else f"run-{op[1]}")
+                except Exception as e:          # the handler raised: that is what the engine gets as reply
+                    err = "err:" + type(e).__name__
             else:
                 raise ValueError(op)
-        except ValueError as e:
-            if op[0] != "tags":
-                raise
-            err = "err:" + type(e).__name__
+        except ValueError:
+            raise
         rows = h.value_rows(last_id)
         if rows:
             last_id = rows[-1][0]
@@ -121,9 +139,30 @@ def execute(case) -> tuple[list[str], list[dict]]:
         tags = ";".join(f"{enc(n)}|{token(tv.value)}|{_t8(tv.tick_time)}" for n, tv in ed.tags_info.map.items()) or "-"
         shown = err or ("rows:" + (";".join(f"{rid.split('-')[1]}|{enc(name)}|{_t8(t)}|{token(v)}"
                                             for (_, rid, name, t, v) in rows) or "-"))
-        out.append(f"{shown}\tL={L}\ttags={tags}")
-        obs.append({"op": op, "rows": [(rid, name, Fraction(t), token(v)) for (_, rid, name, t, v) in rows]})
+        out.append(shown)
+        obs.append({"op": op, "err": err, "rows": [(rid, name, Fraction(t), token(v)) for (_, rid, name, t, v) in rows],
+                    "internal": f"L={L}  tags={tags}"})
     return out, obs
+
+
+def detect_policy() -> dict:
+    """Which of the modelled variants is the implementation?  Two black-box probes through the handlers:
+    (1) an older report of a tag arrives after a newer one that is not persisted yet — which value does the next
+        batch store?   (2) a report exactly one interval after the last batch — is it persisted?"""
+    p1 = {"ops": [["uod", ["a", "b"], 40], ["newrun"], ["tags", 0, [["a", 1, 8]]], ["tags", 0, [["a", 2, 32]]],
+                  ["tags", 0, [["a", 3, 24]]], ["tags", 0, [["b", 4, 80]]]]}
+    p2 = {"ops": [["uod", ["a"], 8], ["newrun"], ["tags", 0, [["a", 1, 8]]], ["tags", 0, [["a", 2, 16]]]]}
+    pol = {"keepNewer": False, "strict": True}
+    try:
+        last = execute(p1)[1][-1]["rows"]
+        vals = {name: val for (_, name, _, val) in last}
+        if vals.get("a") == "i:2":
+            pol["keepNewer"] = True
+        if len(execute(p2)[1][-1]["rows"]) == 1:
+            pol["strict"] = False
+    except Exception:
+        pass
+    return pol
 
 
 # ------------------------------------------------------------------------------------------------
@@ -140,20 +179,42 @@ def oracle(case, obs: list[dict]) -> list[Failure]:
 
     interval: Fraction | None = None          # None = inf
     reported: dict[tuple[str, str], list[Fraction]] = {}     # (tag, value token) -> reported tick times so far
-    last: dict[tuple[str, str], tuple[Fraction, Fraction]] = {}   # (run, tag) -> (timestamp, witness report time) of last row
-    last_ts: dict[str, Fraction] = {}          # run -> timestamp of the last row written
+    last: dict[tuple[str, str], tuple[Fraction, Fraction, int]] = {}   # (run, tag) -> (timestamp, witness report time, epoch) of last row
+    last_ts: dict[str, tuple[Fraction, int]] = {}          # run -> (timestamp, epoch) of the last row written
+    # the oracle's own ledger (from the ops only): which run is active; how often the connection was re-established
+    active: str | None = None
+    started = 0
+    epoch = 0
+    batch_seen = False                        # a row was written for the active run since its start / the last reconnect
     for i, o in enumerate(obs):
         op = o["op"]
         if op[0] == "uod":
             interval = None if op[2] == "inf" else Fraction(op[2], 8)
+        elif op[0] == "newrun":
+            active = f"run-{started}"
+            started += 1
+            batch_seen = False
+        elif op[0] == "stoprun":
+            active = None
+        elif op[0] == "reconnect":
+            epoch += 1
+            interval = None                   # the engine's UodInfoMsg has to arrive again
+            batch_seen = False
         if op[0] == "tags":
             for (n, v, t) in op[2]:
                 reported.setdefault((n, token(v)), []).append(Fraction(t, 8))
+            if o.get("err"):
+                site = "before-first-batch" if not batch_seen else "other"
+                once(f"tags-handler-raises:{o['err'][4:]}:{site}", f"op #{i} {op}: handle_TagsUpdatedMsg raised {o['err'][4:]}")
         for (run, name, ts, val) in o["rows"]:
             where = f"op #{i}: row (run {run}, tag {name!r}, time {ts}, value {val})"
-            if run in last_ts and ts < last_ts[run]:
-                once("timestamp-decreases", f"{where} after a row with time {last_ts[run]}")
-            last_ts[run] = ts
+            batch_seen = True
+            if run != active:
+                once("row-outside-active-run", f"{where}: the active run is {active}")
+            if run in last_ts and ts < last_ts[run][0]:
+                once("timestamp-decreases" + (":after-reconnect" if last_ts[run][1] < epoch else ""),
+                     f"{where} after a row with time {last_ts[run][0]}")
+            last_ts[run] = (ts, epoch)
             cands = sorted(t for t in reported.get((name, val), []))
             if not cands:
                 once("value-never-reported", f"{where}: the engine never reported that value for that tag")
@@ -165,15 +226,16 @@ def oracle(case, obs: list[dict]) -> list[Failure]:
             floor = prev[1] if prev else None
             ok = [t for t in cands if t <= ts and (floor is None or t >= floor)]
             if prev is not None:
+                sfx = ":after-reconnect" if prev[2] < epoch else ""
                 if ts <= prev[0]:
-                    once("timestamp-not-increasing", f"{where}: previous row of the tag has time {prev[0]}")
+                    once("timestamp-not-increasing" + sfx, f"{where}: previous row of the tag has time {prev[0]}")
                 elif interval is None or ts - prev[0] < interval:     # exactly one interval apart is not "twice per interval"
-                    once("recorded-twice-within-interval",
+                    once("recorded-twice-within-interval" + sfx,
                          f"{where}: previous row of the tag at {prev[0]}, interval {'inf' if interval is None else interval}")
                 if not ok:
-                    once("older-value-recorded-after-newer",
+                    once("older-value-recorded-after-newer" + sfx,
                          f"{where}: reported at {cands}, but the previous row of the tag holds a value reported at >= {floor}")
-            last[(run, name)] = (ts, min(ok) if ok else max(t for t in cands if t <= ts))
+            last[(run, name)] = (ts, min(ok) if ok else max(t for t in cands if t <= ts), epoch)
     return fails
 
 
@@ -211,18 +273,19 @@ def _value(rng, counter: list[int]):
 
 def gen_stream(ctx: Check, malformed: bool) -> dict:
     """an engine-like life: UodInfo, tags before the run, run start, ticks that report changed tags with the tick
-    time, then the transport's perturbations (duplicates, swaps, late old messages), late new tags, a second run"""
+    time, then the transport's perturbations (duplicates, swaps, late old messages), late new tags, a second run,
+    a lost and re-established connection"""
     rng = ctx.rng
     counter = [0]
     pool = rng.sample(TAGS, rng.randrange(2, len(TAGS) + 1))
     with_entry = [n for n in pool if rng.random() < 0.8]
     if malformed:
-        interval = rng.choice([-8, 0, 1, "inf", 2 ** 40])
+        interval = rng.choice([0, 0, 1, "inf", 2 ** 40])
         clock = rng.choice([-400, 0, 2 ** 40])
     else:
         interval = rng.choice([0, 8, 8, 16, 40, 40, 80, "inf"])
         clock = rng.choice([0, 8, 8_000_000])
-    ctx.count(f"interval:{'inf' if interval == 'inf' else ('<=0' if interval <= 0 else '>0')}")
+    ctx.count(f"interval:{'inf' if interval == 'inf' else ('0' if interval == 0 else '>0')}")
     ops: list = []
     if rng.random() < 0.9:
         ops.append(["uod", with_entry, interval])
@@ -258,6 +321,13 @@ def gen_stream(ctx: Check, malformed: bool) -> dict:
             if msgs[-1][0] == "newrun":
                 run += 1
             ctx.count("mid-stream:" + msgs[-1][0])
+        if rng.random() < 0.05:                  # the connection is lost and re-established; the engine announces itself again
+            msgs.append(["reconnect"])
+            ctx.count("mid-stream:reconnect")
+            if rng.random() < 0.85:
+                msgs.append(["uod", with_entry, interval])
+            if rng.random() < 0.6:               # ... and sends all its tags with the tick times of their last change
+                msgs.append(["tags", run, [[n, _value(rng, counter), clock - rng.choice([0, 0, 8, 40])] for n in pool]])
     for _ in range(rng.randrange(0, 4)):         # transport perturbations
         i = rng.randrange(0, len(msgs))
         r = rng.random()
@@ -279,7 +349,7 @@ def gen_stream(ctx: Check, malformed: bool) -> dict:
 def nontrivial(case, out) -> bool:
     """rows were written at two or more different times (so the throttle and the ordering were exercised)"""
     times = set()
-    for ln in out:
+    for ln in out[1:]:
         first = ln.split("\t")[0]
         if first.startswith("rows:") and first != "rows:-":
             for r in first[5:].split(";"):
@@ -299,6 +369,8 @@ def check_cases(ctx: Check, stream: str, cases: list[dict], selftest: bool = Tru
     if mout and selftest:
         ctx.selftest(stream, "PlotPersist", cases, lambda c: lines_of(c, "tagsm"), mout)
     for c in cases:
+        if id(c) not in observations:
+            continue
         for f in oracle(c, observations[id(c)]):
             ctx.fail(f)
         rows = sum(len(o["rows"]) for o in observations[id(c)])
@@ -307,15 +379,24 @@ def check_cases(ctx: Check, stream: str, cases: list[dict], selftest: bool = Tru
 
 def run(ctx: Check) -> int:
     ctx.prove(MODULE, REQUIRED)
+    from harness.agg_common import warm_up
+    warm_up()
+    POLICY.update(detect_policy())
+    ctx.extra["policy_detected"] = (f"upsert {'keeps the newer report' if POLICY['keepNewer'] else 'lets an older report overwrite'}"
+                                    f"; threshold {'>' if POLICY['strict'] else '>='} "
+                                    f"({'as /repo at the time of writing' if POLICY == {'keepNewer': False, 'strict': True} else 'a modelled variant'})")
     ctx.rule = ("cases = op sequences for one registered engine against a fresh database: UodInfoMsg (reading names, "
                 "data_log_interval_seconds), RunStartedMsg (fresh id), RunStoppedMsg, TagsUpdatedMsg (run id of the run / "
                 "None / another id; tag values with tick times). Exhaustive: after [uod {a,b} 1 s, start] every stream up to "
                 "length 3 (quick) / 5 (thorough) of single-update messages over 2 tags x 3 times. Generated: engine-like "
                 "streams (advancing clock, 40 % of tags change per tick, 10 % stale tick times, Mark resets, tags without "
-                "plot-log entry, late unknown tags, wrong/missing run ids, mid-stream stop/start/uod) with transport "
-                "perturbations (duplicate, swap, old message late); 15 % malformed (negative / zero / 2^40 / inf interval, "
-                "negative and 2^40 times, empty and repeated tag names in one message). Compared after every op: rows written, "
-                "latest_persisted_tick_time, whole tag map. Non-trivial = rows at >= 2 different times.")
+                "plot-log entry, late unknown tags, wrong/missing run ids, mid-stream stop/start/uod, 5 % per tick a lost and "
+                "re-established connection followed by the engine's re-announcement) with transport "
+                "perturbations (duplicate, swap, old message late); 15 % malformed (zero / 2^40 / inf interval, "
+                "negative and 2^40 times, empty and repeated tag names in one message). Compared after every op: the rows "
+                "written (run, tag, time, value) or the exception of the handler — not the intermediate state. The model is run "
+                "in the variant (upsert policy, threshold > or >=) the implementation is recognised as by two probes. "
+                "Non-trivial = rows at >= 2 different times.")
     corpus = load_corpus(ctx.id)
     check_cases(ctx, "tag-streams-exhaustive", corpus + gen_exhaustive(ctx), selftest=False)
     gen = []
@@ -331,6 +412,7 @@ def run(ctx: Check) -> int:
                        "harness feeds multiples of 1/8 s so float arithmetic is exact",
                        "tick times are in the range datetime.fromtimestamp accepts (TagsInfo.upsert formats them in a debug "
                        "warning when an older report arrives; beyond year 9999 that raises ValueError)",
+                       "data_log_interval_seconds >= 0",
                        "one engine; a run is started once per run id (duplicated RunStartedMsg: C30)",
                        "SQLite/SQLAlchemy behave as append-only row lists for the queries used"]
 
@@ -352,8 +434,11 @@ def replay(obj) -> int:
         return 0
     out, obs = execute(case)
     model = drive("PlotPersist", [lines_of(case)])[0]
-    for op, a, b in zip(case["ops"], out, model):
-        print(f"{op}\n   impl : {a}\n   model: {b}")
+    POLICY.update(detect_policy())
+    model = drive("PlotPersist", [lines_of(case)])[0]
+    print(f"model variant: {POLICY}")
+    for op, a, b, o in zip(case["ops"], out[1:], model[1:], obs):
+        print(f"{op}\n   impl : {a}      [{o['internal']}]\n   model: {b}")
     fails = oracle(case, obs)
     for f in fails:
         print(f"ORACLE: {f.key}: {f.detail}")
